@@ -157,7 +157,10 @@ def extract(g, X):
         b = X.fn_body(fi, "empty")
         m = re.search(r"refs:\s*XRefTable::new\((\d+)\)", b)
         nb = X.fn_body(xr, "new")
-        if not re.search(r"entries\.resize\(num_objects as usize", nb) or len(re.findall(r"entries\.push\(", nb)) != 1:
+        (n,) = X.fn_params(xr, "new")
+        filled = (re.search(r"\w+\.resize\(\s*" + n + r"\s+as\s+usize\s*,", nb) or
+                  re.search(r"vec!\[\s*XRef::Invalid\s*;\s*" + n + r"\s+as\s+usize\s*\]", nb))
+        if not filled or len(re.findall(r"\w+\.push\(", nb)) != 1:
             raise ValueError("XRefTable::new changed")
         cb = X.fn_body(fi, "create")
         if not re.search(r"let\s+id\s*=\s*self\.refs\.len\(\)\s*as\s*u64\s*;\s*self\.refs\.push\(XRef::Promised\)", cb):
